@@ -166,10 +166,14 @@ func (a *FuncAction) Exec(ctx context.Context, bs Bindings, props StepProps) (*E
 	// Restore the permanent bindings into the bindings (if any)
 	// that the execution returned.  A failed execution can be nil,
 	// and nil bindings (say from a guard that rejects) stay nil.
-	if Exp_PermanentBindings && exe != nil && exe.Bs != nil {
+	if Exp_PermanentBindings && exe != nil && exe.Bs != nil && 0 < len(permanent) {
+		// Restore into a copy: The action could have returned
+		// the bindings that it was given, which are the caller's.
+		restored := exe.Bs.Copy()
 		for p, v := range permanent {
-			exe.Bs[p] = v
+			restored[p] = v
 		}
+		exe.Bs = restored
 	}
 
 	{ // This block just generates tracing data.
